@@ -28,6 +28,7 @@ class StubBackend(CryptoBackend):
         self.asked = []
         self.decrypt_calls = 0
         self.good_keys = None       # None: every key decrypts; else list of key-file basenames
+        self.garble = 0             # 1: plaintext truncated in the middle, 2: non-XML text
 
     def version(self):
         return "1.2.33"
@@ -44,6 +45,10 @@ class StubBackend(CryptoBackend):
             return ""
         if self.good_keys is not None and not any(key_file.endswith(k) for k in self.good_keys):
             return ""
+        if self.garble == 1:
+            return self.plain[:len(self.plain) // 2]
+        if self.garble == 2:
+            return "decryption produced this, which is not XML"
         return self.plain
 
     def sign_statement(self, statement, node_name, key_file, node_id, id_attr):
@@ -105,7 +110,7 @@ class SPFixture:
         self.wire = {k: (b64(v[0]), v[1]) for k, v in self.docs.items()}
 
     def parse(self, key, want_resp, want_ass, want_either, resp_ok, ass_ok, can_decrypt=True,
-              allow_unsolicited=False, good_keys=None):
+              allow_unsolicited=False, good_keys=None, garble=0):
         c = self.client
         b = self.backend
         from veriflib import timemodel
@@ -119,6 +124,7 @@ class SPFixture:
         b.asked = []
         b.decrypt_calls = 0
         b.good_keys = good_keys
+        b.garble = garble
         wire, plain = self.wire[key]
         b.plain = plain if (plain is not None and can_decrypt) else ""
         exc = None
